@@ -5,6 +5,7 @@ package main
 
 import (
 	"bytes"
+	"encoding/base64"
 	"encoding/json"
 	"fmt"
 	"os"
@@ -32,6 +33,13 @@ type Scenario struct {
 	Rcpts  [][2]int `json:"rcpts"`
 	// Unpackers are party ids
 	Unpackers []int `json:"unpackers"`
+	// Form is the transport form handed to packager.UnpackMessage: "" (the envelope itself), "quoted" ("<base64url>"),
+	// "quoted-pad" ("<padded base64url>")
+	Form string `json:"form,omitempty"`
+	// History: the parties restart their long-lived packager/packer instances, exchange a priming envelope while the
+	// DID documents are at epoch 0 (late keys not yet published), then the documents move to epoch 1 and this
+	// scenario runs through the SAME instances
+	History bool `json:"history,omitempty"`
 }
 
 const (
@@ -58,12 +66,19 @@ func newPool() *pool {
 					k = p.w.NewKey(pa, kt)
 				}
 
+				// the parties' DID documents evolve: slot 1 keys of two key types are published from epoch 1 on
+				if s == 1 && (kt == env.X25519 || kt == env.P256) {
+					k.Born = 1
+				}
+
 				tab[pa] = append(tab[pa], k)
 			}
 		}
 
 		p.keys[kt] = tab
 	}
+
+	p.w.Epoch = 1
 
 	return p
 }
@@ -144,6 +159,10 @@ func (p *pool) run(kind string, sc Scenario, tr *hx.Trace) {
 	}
 
 	pay, pid := payload(sc.Payload, sc.PaySeed)
+
+	if sc.History {
+		p.prime(sc, sender, rcpts)
+	}
 
 	rec := &hx.Record{Kind: kind, Case: sc, Oracle: "ok"}
 	fail := func(sig, detail string) {
@@ -262,7 +281,16 @@ func (p *pool) run(kind string, sc Scenario, tr *hx.Trace) {
 						return env.Unpacked{Out: "err", Err: err.Error()}
 					}
 
-					return p.w.Project(pk.UnpackMessage(packed))
+					msg := packed
+
+					switch sc.Form {
+					case "quoted":
+						msg = []byte(`"` + base64.RawURLEncoding.EncodeToString(packed) + `"`)
+					case "quoted-pad":
+						msg = []byte(`"` + base64.URLEncoding.EncodeToString(packed) + `"`)
+					}
+
+					return p.w.Project(pk.UnpackMessage(msg))
 				}
 
 				pp, err := party.Packer(sc.Packer, sc.Enc)
@@ -370,9 +398,10 @@ func (p *pool) run(kind string, sc Scenario, tr *hx.Trace) {
 		refs = p.coqRefs(sc.Style, auth, sender, rcpts)
 	}
 
-	rec.Coq = fmt.Sprintf("{| c_cfg := mkcfg %s %s %s %s; c_viapk := %s; c_spar := %s; c_payload := %d; c_sender := %d; c_rcpts := %s; c_refs := %s; c_packed := %s; c_unp := %s |}",
+	rec.Coq = fmt.Sprintf("{| c_cfg := mkcfg %s %s %s %s; c_viapk := %s; c_spar := %s; c_payload := %d; c_sender := %d; c_rcpts := %s; c_refs := %s; c_form := %d; c_history := %s; c_packed := %s; c_unp := %s |}",
 		coqPacker(sc.Packer), kt, sc.Enc, coqStyle(mstyle), hx.CoqBool(sc.Via == "packager"), hx.CoqNList(p.partyKeys(sender.Owner)), pid, senderN,
-		hx.CoqNList(rn), refs, hx.CoqBool(perr == nil), hx.CoqList(coqUnp))
+		hx.CoqNList(rn), refs, map[string]int{"": 0, "quoted": 1, "quoted-pad": 2}[sc.Form], hx.CoqBool(sc.History),
+		hx.CoqBool(perr == nil), hx.CoqList(coqUnp))
 	rec.Observed = obs
 
 	outs := []string{}
@@ -380,16 +409,101 @@ func (p *pool) run(kind string, sc Scenario, tr *hx.Trace) {
 		outs = append(outs, u.Out)
 	}
 
-	rec.Class = fmt.Sprintf("%s/%s/%s/%s/%s/%s/n=%d/%v/%s", sc.Packer, kt, sc.Enc, sc.Style, sc.Via, sc.Payload, len(rcpts), perr == nil, strings.Join(outs, ""))
+	rec.Class = fmt.Sprintf("%s/%s/%s/%s/%s%s/%s/n=%d/%v/%s/h=%v", sc.Packer, kt, sc.Enc, sc.Style, sc.Via, sc.Form, sc.Payload, len(rcpts), perr == nil, strings.Join(outs, ""), sc.History)
 	rec.Trivial = false
 	rec.Dist = []string{"packer=" + sc.Packer, "kt=" + kt, "enc=" + sc.Enc, "style=" + sc.Style, "via=" + sc.Via,
-		"payload=" + sc.Payload, fmt.Sprintf("n=%d", len(rcpts)), fmt.Sprintf("packed=%v", perr == nil)}
+		"payload=" + sc.Payload, fmt.Sprintf("n=%d", len(rcpts)), fmt.Sprintf("packed=%v", perr == nil), "form=" + sc.Form,
+		fmt.Sprintf("history=%v", sc.History)}
 
 	for _, u := range obs.Unp {
 		rec.Dist = append(rec.Dist, "unpack="+u.Out)
 	}
 
 	tr.Put(rec)
+}
+
+// prime restarts the instances of every party involved, puts the directory at epoch 0 and lets the same sender
+// party send one envelope to the slot-0 key of each recipient party (packed and unpacked through the instances the
+// scenario will use), then moves the directory to epoch 1.
+func (p *pool) prime(sc Scenario, sender *env.Key, rcpts []*env.Key) {
+	parties := map[int]bool{sender.Owner: true}
+	for _, pa := range sc.Unpackers {
+		parties[pa] = true
+	}
+
+	for pa := range parties {
+		p.w.Parties[pa].ResetInstances()
+	}
+
+	p.w.Epoch = 0
+
+	defer func() {
+		_ = recover()
+		p.w.Epoch = 1
+	}()
+
+	kt := sender.KT
+	s0 := p.keys[kt][sender.Owner][0]
+
+	var (
+		to   []string
+		args [][]byte
+		own  []int
+	)
+
+	seen := map[int]bool{}
+
+	for _, r := range rcpts {
+		if seen[r.Owner] {
+			continue
+		}
+
+		seen[r.Owner] = true
+		k0 := p.keys[kt][r.Owner][0]
+		to = append(to, k0.Ref(sc.Style))
+		args = append(args, k0.RecipientArg(sc.Style))
+		own = append(own, r.Owner)
+	}
+
+	auth := strings.HasSuffix(sc.Packer, "auth")
+
+	var packed []byte
+
+	if sc.Via == "packager" {
+		pk, err := p.w.Parties[sender.Owner].Packager(sc.Enc)
+		if err != nil {
+			return
+		}
+
+		e := &transport.Envelope{MediaTypeProfile: env.Profile(sc.Packer), Message: []byte("priming"), ToKeys: to}
+		if auth {
+			e.FromKey = []byte(s0.Ref(sc.Style))
+		}
+
+		packed, _ = pk.PackMessage(e)
+	} else {
+		pp, err := p.w.Parties[sender.Owner].Packer(sc.Packer, sc.Enc)
+		if err != nil {
+			return
+		}
+
+		var sid []byte
+		if auth {
+			sid = s0.SenderID(sc.Style)
+		}
+
+		packed, _ = pp.Pack(transport.MediaTypeV2PlaintextPayload, []byte("priming"), sid, args)
+	}
+
+	for _, pa := range own {
+		if sc.Via == "packager" {
+			if pk, err := p.w.Parties[pa].Packager(sc.Enc); err == nil {
+				_, _ = pk.UnpackMessage(packed)
+			}
+		} else if pp, err := p.w.Parties[pa].Packer(sc.Packer, sc.Enc); err == nil {
+			_, _ = pp.Unpack(packed)
+		}
+	}
 }
 
 // --- key references as strings of atoms (coq/C01/KeyRef.v): '.' = 0, '#' = 1, every other token an atom >= 1000 ---
@@ -513,6 +627,11 @@ func (p *pool) scenario(r *hx.Rng, packer, kt, enc, style, via, pay string, n in
 
 	sc.Unpackers = []int{0, 1, 2, 3, 4, 5}
 
+	if via == "packager" {
+		// the transport forms packager.UnpackMessage accepts
+		sc.Form = []string{"", "quoted", "quoted-pad"}[r.Intn(3)]
+	}
+
 	return sc
 }
 
@@ -634,6 +753,30 @@ func main() {
 				sc := p.scenario(next(), packer, env.Ed25519, "XC20P", "raw", via, "json", n)
 				sc.Rcpts[n-1] = [2]int{4, 1}
 				p.run("corner", sc, tr)
+			}
+		}
+	}
+
+	// histories through long-lived instances with DID documents that gain a key between two envelopes
+	for _, packer := range []string{"jwe-auth", "jwe-anon"} {
+		for _, kt := range []string{env.X25519, env.P256} {
+			for _, style := range []string{"pdoc", "diddoc"} {
+				for _, via := range []string{"packager", "packer"} {
+					for n := 1; n <= 2; n++ {
+						for lateSender := 0; lateSender < 2; lateSender++ {
+							sc := p.scenario(next(), packer, kt, "XC20P", style, via, "json", n)
+							sc.Sender = [2]int{0, lateSender}
+							sc.Rcpts = nil
+
+							for i := 0; i < n; i++ {
+								sc.Rcpts = append(sc.Rcpts, [2]int{1 + i, 1 - (i+lateSender)%2}) // late keys (slot 1) and old ones
+							}
+
+							sc.History = true
+							p.run("history", sc, tr)
+						}
+					}
+				}
 			}
 		}
 	}
